@@ -11,6 +11,59 @@ SPECIFICATION Spec
 CHECK_DEADLOCK FALSE
 """
 INV = "INVARIANTS Conservation HonestPayout PayoutAtLeastNewest HonestNotRobbed"
+SCFG = """CONSTANTS P0 = %(p0)d MaxP = %(mp)d MaxS = %(ms)d CD = %(cd)d Adversary = %(adv)s Hon = "%(hon)s" Deposit = 100
+SPECIFICATION Spec
+%(inv)s
+CHECK_DEADLOCK FALSE
+"""
+SINV = "INVARIANTS Conservation HonestPayout HonestNotRobbed"
+
+
+def sub_runs(prop, tier, seed, scratch, binary, tl, dr, design_cex):
+    """SubSettle.tla: the same two properties for a ledger channel with a sub-channel."""
+    adv = prop == "C04"
+    if tier == "quick":
+        base, stride = dict(p0=2, mp=3, ms=1, cd=1), 3
+    else:
+        base, stride = (dict(p0=2, mp=4, ms=2, cd=1) if adv else dict(p0=3, mp=4, ms=2, cd=2)), 1
+    shards = vlib.NCPU
+    for hon in (["A", "B"] if adv else ["A"]):
+        c = dict(base, adv="TRUE" if adv else "FALSE", hon=hon)
+        r1 = vlib.tlc(scratch, "SubSettle", SCFG % dict(c, inv=SINV), name="SubSettleMC_%s%s" % (prop, hon), workers=4, timeout=3000)
+        design_cex.append(r1["violated"] or "none")
+        r = vlib.tlc(scratch, "SubSettle", SCFG % dict(c, inv=""), name="SubSettle_%s%s" % (prop, hon), workers=1,
+                     extra=["-dump", "dot,actionlabels", "graph.dot"], timeout=3000)
+        if not r["ok"]:
+            raise vlib.Inconclusive("TLC failed on SubSettle.tla: %s" % r["violated"])
+        dot = os.path.join(r["dir"], "graph.dot")
+        r["out"] = ""
+        tl.append(r)
+        env = dict(VERIF_DOT=dot, VERIF_P0=c["p0"], VERIF_CD=c["cd"], VERIF_ADVERSARY="1" if adv else "0", VERIF_HON=hon,
+                   VERIF_SHARDS=shards, VERIF_SEED=seed, VERIF_STRIDE=stride)
+        with cf.ThreadPoolExecutor(max_workers=shards) as ex:
+            ds = list(ex.map(lambda k: vlib.run_driver(binary, "TestSubSettle", dict(env, VERIF_SHARD=k), scratch,
+                                                       "subsettle%s_%d" % (hon, k), timeout=12000), range(shards)))
+        os.remove(dot)
+        # seeded random behaviours of the same graph (TLC simulation)
+        import shutil
+        simdir = os.path.join(scratch, "subsim%s" % hon)
+        os.makedirs(os.path.join(simdir, "b"))
+        nsim = 400 if tier == "quick" else 6000
+        rs = vlib.tlc(scratch, "SubSettle", SCFG % dict(c, inv=""), name="SubSettleSim_%s%s" % (prop, hon), workers=1,
+                      simulate="file=%s/b/t,num=%d" % (simdir, nsim), extra=["-depth", "16", "-seed", str(seed)], timeout=3000)
+        rs["out"] = ""
+        senv = dict(env, VERIF_SIM_DIR=os.path.join(simdir, "b"), VERIF_STRIDE=1)
+        del senv["VERIF_DOT"]
+        with cf.ThreadPoolExecutor(max_workers=shards) as ex:
+            ds += list(ex.map(lambda k: vlib.run_driver(binary, "TestSubSettle", dict(senv, VERIF_SHARD=k), scratch,
+                                                        "subsettlesim%s_%d" % (hon, k), timeout=12000), range(shards)))
+        shutil.rmtree(simdir)
+        for d in ds:
+            d["counts"]["sub_behaviours"] = d["counts"].get("behaviours", 0)
+            d["counts"]["sub_edges_executed"] = d["counts"].get("edges_executed", 0)
+            d["counts"]["sub_graph_edges"] = d["counts"].pop("graph_edges", 0)
+            d["counts"]["sub_graph_states"] = d["counts"].pop("graph_states", 0)
+        dr += ds
 
 
 def run(prop, tier, seed, scratch, t0):
@@ -61,6 +114,7 @@ def run(prop, tier, seed, scratch, t0):
             d["counts"]["graph_edges"] = 0
         ds[0]["counts"]["graph_edges"] = r["generated"] - 1
         dr += ds
+    sub_runs(prop, tier, seed, scratch, binary, tl, dr, design_cex)
     counts = vlib.merge_counts(dr)
     allv = [v for d in dr for v in d["violations"]]
     viol = [v for v in allv if v["kind"] == "monitor"]
@@ -68,14 +122,15 @@ def run(prop, tier, seed, scratch, t0):
     if adv:
         rule = ("every edge of the reachable graph of Settle.tla in adversary mode - payments (also with the update held in "
                 "flight at each of its three stages), final update, B registering EVERY earlier fully signed version directly on "
-                "the ledger at every point, clock ticks, settlement - replayed after its shortest path: A is an unmodified "
+                "the ledger at every point, clock ticks, settlement - replayed after its shortest path and continued by a shortest path to A's settlement: A is an unmodified "
                 "client with Channel.Watch and the real local.Watcher on the strict ledger's event subscription; monitors on the "
                 "real ledger: conservation at every step; once A has settled the concluded version is >= the newest version "
                 "ever enabled at A and A's account >= its balance in that state")
     else:
         rule = ("every edge of the reachable graph of Settle.tla - initial balances / funding agreement, accepted and rejected "
                 "payments in both directions, updates held in flight, optional final update, either side settling first, "
-                "cooperatively or through registration and time-out - replayed after its shortest path on two honest clients; "
+                "cooperatively or through registration and time-out - replayed after its shortest path and continued by a shortest path "
+                "to the settlement of both, on two honest clients; "
                 "monitors on the strict ledger: funding takes exactly the agreed amounts, conservation at every step, after both "
                 "settled each account = deposit - funding + balance in the last state both signed and nothing remains held")
     cov = dict(
@@ -83,13 +138,21 @@ def run(prop, tier, seed, scratch, t0):
         traces_validated_against_impl=counts.get("behaviours", 0),
         samples=[s for d in dr for s in d["samples"]][:2],
         evaluations=counts.get("env_steps", 0), distinct_nontrivial=counts.get("edges_executed", 0),
-        rule=rule + "; distinct_nontrivial = distinct graph edges executed", exhaustive=True, driver_counts=counts,
+        rule=rule + ". SubSettle.tla adds the same for a ledger channel with a sub-channel: payments in both channels, a "
+             "sub-channel update held at the responder's handler and a settlement attempt that times out meanwhile, finalising "
+             "the sub-channel (by either party) and withdrawing it into the parent, settlement of the parent with the "
+             "sub-channel still open (registration of both, both challenge periods)" +
+             (", the adversary registering every earlier (parent, sub-channel) pair of states it holds, either party honest"
+              if adv else "") +
+             "; quick: every 3rd edge of that graph (offset by seed), thorough: every edge; distinct_nontrivial = distinct graph "
+             "edges executed", exhaustive=True, driver_counts=counts,
         design_level_counterexamples=design_cex,
         tlc=[dict(config=r["cmd"].split("-config ")[1].split()[0], generated=r["generated"], distinct=r["distinct"],
                   wall_s=round(r["wall"], 1)) for r in tl],
-        checker_cmd="tlc -dump dot,actionlabels graph.dot Settle.tla ; cdrv.test -test.run ^TestSettle$",
+        checker_cmd="tlc -dump dot,actionlabels graph.dot Settle.tla | SubSettle.tla ; cdrv.test -test.run '^TestSettle$|^TestSubSettle$'",
     )
-    assumptions = ["one asset, two parties, ledger channel without sub-channels (sub-channel scenarios: see DESIGN.md, limits)",
+    assumptions = ["one asset, two parties; one sub-channel (no sub-sub-channels, no virtual channels); updates are held in flight only "
+                   "in the ledger-channel scenarios (Settle.tla), in SubSettle.tla only at the sub-channel's handler",
                    "the strict reference ledger of the harness stands for the contracts (verifies signatures, versions, time-outs, registered state)",
                    "steps are separated by quiescence; envelopes are delivered explicitly by the driver"]
     if adv:
